@@ -119,6 +119,7 @@ pub fn protocol_name_ok(n: u8, debug_name: &str) -> bool {
             }
             // spelling tolerance for entries whose IANA keyword is not an identifier
             match n {
+                10 => got == "bbcrccmon",              // BBN-RCC-MON, library spelling
                 22 => got == "xnxidp",                 // XNS-IDP, library spelling
                 34 => got == "threepc",                // 3PC
                 61 => got == "anydistributedprotocol", // descriptive entry, free-form label
@@ -148,5 +149,18 @@ mod t {
         assert_eq!(super::IANA[17], "UDP");
         assert_eq!(super::IANA[132], "SCTP");
         assert_eq!(super::IANA[89], "OSPFIGP");
+    }
+}
+
+#[cfg(test)]
+mod t2 {
+    #[test]
+    fn list_mismatches() {
+        for n in 0..=255u8 {
+            let name = format!("{:?}", netflow_parser::protocol::ProtocolTypes::from(n));
+            if !super::protocol_name_ok(n, &name) {
+                println!("MISMATCH {} {} lib={}", n, super::iana_name(n), name);
+            }
+        }
     }
 }
